@@ -58,6 +58,7 @@ macro_rules! for_elem {
         use $crate::elem::*;
         match $name {
             "Z" => $f::<Z>($($arg),*),
+            "Z8" => $f::<Z8>($($arg),*),
             "B1" => $f::<B1>($($arg),*),
             "B2" => $f::<B2>($($arg),*),
             "B3" => $f::<B3>($($arg),*),
@@ -71,7 +72,7 @@ macro_rules! for_elem {
     }};
 }
 
-pub const ELEMS: [&str; 9] = ["Z", "B1", "B2", "B3", "B6", "P8", "T24", "L200", "A64"];
+pub const ELEMS: [&str; 10] = ["Z", "Z8", "B1", "B2", "B3", "B6", "P8", "T24", "L200", "A64"];
 
 pub fn dispatch(c: &mut Ctx) -> bool {
     match c.prop.as_str() {
